@@ -1076,11 +1076,15 @@ func (r *simRun) step() (bool, error) {
 		acts = append(acts, act{"splitLock", 2})
 	}
 	if s.f > 0 && len(live) > 0 && len(r.byzParts) > 0 {
-		acts = append(acts, act{"byzBlockResult", 2})
+		w := 2
+		if r.mode == "C02" {
+			w = 1 // keep the crash/restart density of the C02 walk
+		}
+		acts = append(acts, act{"byzBlockResult", w})
 	}
 	crashW := 1
 	if r.mode == "C02" {
-		crashW = 4
+		crashW = 6
 	}
 	// keep at least one correct node alive; total faulty (byz + down) is not bounded by the property
 	if len(live) > 1 {
@@ -1090,7 +1094,11 @@ func (r *simRun) step() (bool, error) {
 		acts = append(acts, act{"restart", 4})
 	}
 	if len(live)+len(dead) > 0 {
-		acts = append(acts, act{"submitTx", 2})
+		w := 2
+		if r.mode == "C02" {
+			w = 1
+		}
+		acts = append(acts, act{"submitTx", w})
 	}
 	if len(acts) == 0 {
 		return false, nil
@@ -1110,7 +1118,7 @@ func (r *simRun) step() (bool, error) {
 		}
 		p := 3
 		if r.mode == "C02" {
-			p = 15
+			p = 22
 		}
 		if len(r.liveCorrect()) > 1 && rapid.IntRange(0, 99).Draw(rt, "crashInHandler") < p {
 			before := s.tornCuts
@@ -1446,7 +1454,7 @@ func TestC02(t *testing.T) {
 	rec.Assume("prefix-persistence of appended WAL bytes (ordered file system); database durable")
 	rec.Assume("the logical clock advances on every vote, as wall-clock time does: a re-signed vote differs from the first one")
 	t.Run("walk", func(t *testing.T) {
-		ev.Check(t, 50, 200, func(rt *rapid.T) { simRunCase(rt, "C02", "walk", rec) })
+		ev.Check(t, 80, 240, func(rt *rapid.T) { simRunCase(rt, "C02", "walk", rec) })
 	})
 	t.Run("scripted", func(t *testing.T) {
 		ev.Check(t, 30, 120, func(rt *rapid.T) { simRunCase(rt, "C02", "scripted", rec) })
